@@ -399,6 +399,11 @@ func (ft *FT) localResolver(at *ssa.BasicBlock, atHead bool, shadow map[ssa.Valu
 						}
 						continue
 					}
+					if _, isInstr := x.X.(ssa.Instruction); isInstr {
+						if _, done := ft.env[x.X]; !done {
+							continue // not yet translated at this program point
+						}
+					}
 					consider(cand{v: x.X, depth: domDepth(db), idx: idx})
 				case *ssa.Phi:
 					if x.Comment == name && visible(b) && !(b == at && atHead) {
